@@ -40,7 +40,10 @@ def _abstract_collections(ctx):
         raise Unknown("subscript of abstract object")
 
     ac = AbstractClass(ctx.index, C, len_of=lambda o: len(o.attrs["mazes"]), getitem_of=getitem)
-    vectors = [v for k in range(0, 5) for v in itertools.product((0, 1, 2), repeat=k)]
+    if ctx.tier == "thorough":  # deeper bound: lengths 0..3, up to 5 members (1365 collections, ~10 000 indices)
+        vectors = [v for k in range(0, 6) for v in itertools.product((0, 1, 2, 3), repeat=k)]
+    else:
+        vectors = [v for k in range(0, 5) for v in itertools.product((0, 1, 2), repeat=k)]
     dev: dict[str, list] = {"__len__": [], "dataset_lengths": [], "dataset_cum_lengths": [], "mazes": [], "__getitem__": []}
     unknown: dict[str, str] = {}
     n_idx = 0
